@@ -5,7 +5,7 @@ from __future__ import annotations
 
 from hypothesis import strategies as st
 
-from .defspec import DATETIME_NAMES, ENTITY_TYPES, ERROR_NAMES, TIMEDELTA_NAMES
+from .defspec import DATETIME_NAMES, ENTITY_TYPES, ERROR_NAMES, TIMEDELTA_NAMES, python_name
 
 WORDS = ["Alpha", "Beta", "Gamma", "Delta", "Omega", "Zeta", "Kappa", "Sigma", "Theta", "Lamed", "Rho", "Tau", "Phi", "Chi", "Psi",
          "Node", "Leader", "Epoch", "Offset", "Count", "Value", "State", "Index", "Group", "Member", "Record", "Quota", "Token"]
@@ -30,10 +30,15 @@ def field_name(draw, used: set) -> str:
             name = "V" + str(draw(st.integers(0, 9))) + "And" + draw(st.sampled_from(WORDS))
         elif kind == 4 and draw(st.integers(0, 2)) == 0:
             name = draw(st.sampled_from(["N", "X", "Q", "K"]))  # single-letter names are well-formed too
+        elif kind == 5 and draw(st.integers(0, 1)) == 0:
+            # a lone acronym, some of which collide with Python builtins once lower-cased
+            name = draw(st.sampled_from(["ID", "MAX", "MIN", "ALL", "HASH", "TYPE", "ISR", "IP", "TTL", "ANY", "SET"]))
         else:
             name = "".join(draw(st.lists(st.sampled_from(WORDS), min_size=1, max_size=3)))
-        if name not in used and not name.endswith("Ms"):
+        # uniqueness is required of the PYTHON names ("Id" and "ID" both become id_)
+        if name not in used and python_name(name) not in used and not name.endswith("Ms"):
             used.add(name)
+            used.add(python_name(name))
             return name
     raise AssertionError("name space exhausted")
 
